@@ -895,7 +895,7 @@ func checkCloseChain(c *core.Ctx, rule string) {
 	cc := c.Func("", "Conn.Close")
 	if c.Anchor("connection close", cc != nil, "Conn.Close", posOf(cc)) {
 		closes, cancels := false, false
-		for _, f := range an.WithAnon(cc) {
+		for _, f := range closeBodies(cc) {
 			an.AllInstrs(f, func(in ssa.Instruction) {
 				if call, ok := in.(*ssa.Call); ok {
 					if call.Call.IsInvoke() && call.Call.Method.Name() == "Close" && strings.HasSuffix(an.Render(call.Call.Value), ".conn") {
@@ -911,7 +911,7 @@ func checkCloseChain(c *core.Ctx, rule string) {
 		// on every path: a reader blocked in a read is released only by closing the socket (cancelling the context does not wake it)
 		mustClose := true
 		nPaths := 0
-		for _, f := range an.WithAnon(cc) {
+		for _, f := range closeBodies(cc) {
 			has := false
 			an.AllInstrs(f, func(in ssa.Instruction) {
 				if call, ok := in.(*ssa.Call); ok && call.Call.IsInvoke() && call.Call.Method.Name() == "Close" && strings.HasSuffix(an.Render(call.Call.Value), ".conn") {
@@ -943,7 +943,7 @@ func checkCloseChain(c *core.Ctx, rule string) {
 		// … and without waiting for anything a stuck writer holds: closing the socket is what releases a Write blocked on a peer
 		// that no longer reads, so the close must not queue behind that Write's mutex
 		waits := ""
-		for _, f := range an.WithAnon(cc) {
+		for _, f := range closeBodies(cc) {
 			an.AllInstrs(f, func(in ssa.Instruction) {
 				call, ok := in.(*ssa.Call)
 				if !ok || !call.Call.IsInvoke() || call.Call.Method.Name() != "Close" || !strings.HasSuffix(an.Render(call.Call.Value), ".conn") {
@@ -1245,4 +1245,31 @@ func periodTolerance(pr *an.Prover, period ssa.Value, p *an.Path) (string, strin
 		}
 	}
 	return "", "the period is not time.Second × (HeartBtInt + tolerance): " + l.String()
+}
+
+// closeBodies: the function, its literals, the methods it passes as method values (closeOnce.Do(c.shutdown)) and the unexported
+// helpers it calls directly — the code that runs when it is called.
+func closeBodies(fn *ssa.Function) []*ssa.Function {
+	out := an.WithAnon(fn)
+	seen := map[*ssa.Function]bool{}
+	for _, f := range out {
+		seen[f] = true
+	}
+	an.AllInstrs(fn, func(in ssa.Instruction) {
+		if mc, ok := in.(*ssa.MakeClosure); ok {
+			if w, ok := mc.Fn.(*ssa.Function); ok {
+				if t := an.BoundTarget(w); t != nil && t != w && !seen[t] && t.Blocks != nil {
+					seen[t] = true
+					out = append(out, an.WithAnon(t)...)
+				}
+			}
+		}
+	})
+	for _, h := range pkgHelpersOf(fn) {
+		if !seen[h] {
+			seen[h] = true
+			out = append(out, an.WithAnon(h)...)
+		}
+	}
+	return out
 }
